@@ -92,6 +92,12 @@ pub const CATALOGUE: &[Operand] = &[
     Operand { ty: "()->!|()->(bool, int)", values: &["[1]~"] },
     // (no `[()->!]`: the filler of an exhausted iterator over it has no value to be - the family of the
     // recorded finding C01:void-for-never)
+    // unions of functions with an `any` parameter next to a specific one (the parameter type of a call
+    // through the union is the meet of the members' parameter types)
+    Operand { ty: "(any)->int|(int)->int", values: &["(n: any) -> int { return 1; }", "(n: int) -> int { return n + 1; }"] },
+    Operand { ty: "(int, any)->int|(any, string)->int", values: &["(n: int, s: any) -> int { return n + 1; }", "(n: any, s: string) -> int { return std.len(s); }"] },
+    Operand { ty: "(any)->any|(string)->string", values: &["(n: any) -> any { return n; }", "(s: string) -> string { return s + \"!\"; }"] },
+    Operand { ty: "(int, string)|(int, string, float)", values: &["(1, \"a\")", "(1, \"a\", 2.5)"] },
 ];
 
 /// templates over one operand `X`
@@ -139,6 +145,11 @@ pub const UNARY: &[&str] = &[
     "it := X~ ? int; it(); it(); it(); it(); r := it().1 + 1",
     // reducers over the iterator of an array (an empty array may be labelled `[!]`: the declared type decides)
     "r := X~ $+", "r := X~ $*", "r := X[0:0]~ $+", "r := X~ ? (v: any) -> bool { return true; } $+",
+    // destructuring with the names used afterwards (where a type is required and where it is not)
+    "(p, q) := X; r := p", "(p, q) := X; r := (q, p)", "(p, q, s) := X; r := [p, q, s]", "(p, q) := X; r := p + 1", "(p, q) := X; r := q + \"!\"",
+    "(p, q) := X; c := mut int 0; c = p; r := c", "(p, q) := X; g := () -> int { return p; }; r := g()",
+    // calls through the operand with arguments of several types
+    "r := X(\"s\") + 1", "r := X(1, \"s\")", "r := X(\"s\", \"t\")", "r := X([1.5])", "c := mut int 0; c = X(\"s\"); r := c",
 ];
 
 /// infix operators applied to two operands `X op Y`
